@@ -23,12 +23,13 @@ def bytes_like(v):
         (isinstance(v, Opaque) and v.kind == 'bytes')
 
 
-def run_construct(prog, f, depth=6, budget=30000, bind=None):
+def run_construct(prog, f, depth=6, budget=30000, bind=None, opaque=()):
     """Interpret a construct function on symbolic arguments -> list of (kind, value, state)."""
     ip = Interp(prog, max_paths=budget)
     ip.while_unroll = 1
     ip.max_depth = depth
     ip.unique_opaque_calls = True
+    ip.opaque_funcs = set(opaque)
     st = State()
     st.frames.append({})
     args = []
